@@ -187,11 +187,17 @@ class StreamEnd:
         self.lost = True
 
     def write(self, data):
-        self.writer.write(data)
+        try:
+            self.writer.write(data)
+        except OSError as exc:          # channel already gone
+            self.lost_exc = exc
 
     def write_eof(self):
         self.fin_sent = True
-        self.writer.write_eof()
+        try:
+            self.writer.write_eof()
+        except OSError as exc:
+            self.lost_exc = exc
 
     def close(self):
         self.fin_sent = True
@@ -1329,6 +1335,7 @@ def run_labels(labels, kind='local', keep_l=True, keep_r=True,
             w.drain()
             w.check_quiescent()
             res['relayed_after_drain'] = len(w.relayed_sockets())
+            res['chan_after_drain'] = w.observe()['chan']
             w.finish(finish)
         res['l1'] = list(w.l1)
         res['script'] = w.script
@@ -3080,7 +3087,7 @@ def replay_x11(steps, workdir, server_allows=True, unix_display=False,
 
 
 def flow_case(kind, window=(4096, 1024), half='L', nwin=8, slow=True,
-              chunk=None):
+              chunk=None, close_while_paused=False):
     """Flow control in play: end `half` sends a request and half-closes, the
     other end then answers several channel windows (more than the socket
     buffer when `slow`: the half-closed end does not read for a while, so the
@@ -3088,8 +3095,9 @@ def flow_case(kind, window=(4096, 1024), half='L', nwin=8, slow=True,
     receive direction already ended.  Monitors: RelayFIFO, HalfClose,
     Complete, NoListenerLeft."""
     w = World(kind, True, True, manual=False, window=window)
-    res = {'l1': [], 'info': {}, 'script': [['flow', kind, half, list(window),
-                                            slow]], 'diverged': None}
+    res = {'l1': [], 'info': {}, 'diverged': None,
+           'script': [['flow', kind, half, list(window), slow,
+                       close_while_paused]]}
     try:
         w.start()
     except asyncssh.ChannelOpenError as exc:
@@ -3128,6 +3136,11 @@ def flow_case(kind, window=(4096, 1024), half='L', nwin=8, slow=True,
             loop.run_until_idle()
         res['info']['received_while_paused'] = len(a.payload())
         res['info']['writer_paused'] = getattr(b, 'paused', None)
+        if close_while_paused:
+            # the answering end is done and closes while the relay towards
+            # the slow end is still paused: data, EOF and CLOSE are parked
+            b.close()
+            loop.run_until_idle()
         if can_pause:
             a.t.resume_reading()
         loop.run_until_idle()
@@ -3136,8 +3149,12 @@ def flow_case(kind, window=(4096, 1024), half='L', nwin=8, slow=True,
             w.flag('Complete', f'after {half} half-closed, {half} received '
                    f'{len(a.payload())} of the {len(w.sent[other])} bytes '
                    f'{other} sent (window {window[0]})')
-        b.write_eof()
+        if not close_while_paused:
+            b.write_eof()
         loop.run_until_idle()
+        if not (a.eof_seen or a.lost):
+            w.flag('HalfClose', f'{other} finished but {half} never saw '
+                   'EOF')
         w.check_quiescent()
         w.finish('close')
         res['l1'] = list(w.l1)
